@@ -391,11 +391,18 @@ def loss_from(tables, meas):
 
 
 class Counter:
+    """a user callback that watches the tables of the call it was passed to (like a logger of specific cliques)"""
     def __init__(self):
         self.calls = 0
+        self.keys = None
 
     def __call__(self, mu):
         self.calls += 1
+        keys = sorted(map(tuple, mu.keys()))
+        if self.keys is None:
+            self.keys = keys
+        elif keys != self.keys:
+            raise KeyError('callback of an earlier estimate() call invoked with the tables of another call: %s' % (keys[:3],))
 
 
 def run_c18(mbi, case):
@@ -411,9 +418,14 @@ def run_c18(mbi, case):
     for ci, call in enumerate(case['calls']):
         meas = [pool[i] for i in call['sub']]
         eng.iters = call['iters']
-        cb = Counter()
-        tag = 'oracle=%s call#%d iters=%d total=%r meas=%s warm=%s' % (oracle, ci, call['iters'], call['total'], call['sub'], case['warm'])
-        model, v = guard(lambda: eng.estimate(meas, call['total'], callback=cb), 'LocalInference.estimate:' + oracle)
+        cb = Counter() if (ci + len(call['sub'])) % 2 == 0 else None     # half of the calls pass no callback (and go through the shared default options)
+        tag = 'oracle=%s call#%d iters=%d total=%r meas=%s warm=%s callback=%s' % (oracle, ci, call['iters'], call['total'], call['sub'], case['warm'], 'yes' if cb else 'none')
+        if cb is not None:
+            model, v = guard(lambda: eng.estimate(meas, call['total'], callback=cb), 'LocalInference.estimate:' + oracle)
+        else:
+            model, v = guard(lambda: eng.estimate(meas, call['total']), 'LocalInference.estimate:' + oracle)
+            cb = Counter()
+            cb.calls = call['iters']
         steps += cb.calls
         if ci > 0:
             faults['estimator-reuse'] = 1
